@@ -737,11 +737,12 @@ impl<'a> Gen<'a> {
         // parameters are locals; the runtime places the last declared parameter in the lowest slot
         let mut cx = Ctx { scopes: vec![params.iter().rev().cloned().collect()], captured: vec![], in_fn: true, ret, loop_depth: 0, cond_depth: 0 };
         let mut body = vec![];
-        let n = 1 + self.rng.below(self.prof.stmts);
+        // now and then a function without any card (its implicit nil return is all there is)
+        let n = if self.rng.below(12) == 0 { 0 } else { 1 + self.rng.below(self.prof.stmts) };
         for _ in 0..n {
             body.extend(self.stmt(&mut cx, self.prof.max_depth, true));
         }
-        if self.w(8) {
+        if n > 0 && self.w(8) {
             body.push(card("Return", vec![self.expr(&cx, ret, 2)]));
         }
         let ret = if matches!(body.last().map(|c| c.k), Some("Return")) { ret } else { Ty::Nil };
@@ -768,6 +769,19 @@ impl<'a> Gen<'a> {
             if !matches!(v.ty, Ty::Fun(_)) {
                 body.push(setg(&format!("x{j}"), read(&v.name)));
             }
+        }
+        if self.prof.errors > 0 && self.rng.below(5) == 0 {
+            // direct recursion through one call card with the failing card at the bottom: the error location must list
+            // one entry per active call
+            let e = self.error_card(&cx);
+            fns.push(F { name: "rec".into(), params: vec!["n".into()], body: vec![
+                card("IfTrue", vec![card("Less", vec![int(0), read("n")]), card("Return", vec![call("rec", vec![card("Sub", vec![read("n"), int(1)])])])]),
+                e,
+                card("Return", vec![int(0)]),
+            ] });
+            let k = 1 + self.rng.below(5) as i64;
+            let at = self.rng.below(body.len() + 1);
+            body.insert(at, setg("grec", call("rec", vec![int(k)])));
         }
         fns[0].body = body;
         let mut natives = vec![];
